@@ -14,6 +14,9 @@ def check(ctx):
         "interior mutability in RawSpan / LocalSpansInner; R5 a set pushed to a parent whose trace has already been released is "
         "kept for the stale path on every routing branch unless cancelable (the same set pushed to N parents is delivered N times, "
         "also under the parents that finished earlier).")
+    ctx.explanation += (" R6 the delivery bundle: queues drained to their end with the registry filtered in place, closed = closed and empty, "
+                        "stale sets kept unless cancelable, shared sets fanned out to every parent, one sampling filter at the choke point, a scope "
+                        "records iff any parent is sampled, setting a local parent opens a scope, no-op only without a recording parent.")
     ctx.not_decided = "identity of the N delivered subtrees as values."
     facts = ctx.facts("E")
     provrules.rule_push_child(ctx, facts, "R1")
@@ -27,3 +30,6 @@ def check(ctx):
     provrules.rule_mount_scope(ctx, facts, "R2")
     provrules.rule_open_spans(ctx, facts, "R3")
     provrules.rule_forest_immutable(ctx, facts, "R4")
+    # what delivery as such needs (see props/common.py)
+    from .common import delivery_bundle
+    delivery_bundle(ctx, ctx.facts("E"), "R6")
